@@ -112,6 +112,16 @@ def base_vmdk(kind):
     return fh.materialize()
 
 
+@functools.lru_cache(maxsize=None)
+def base_vmdk_footer():
+    """A stream-optimised extent whose grain directory is named by the footer at the end of the file (front gd_offset = -1)."""
+    spec = {"kind": "kdmv", "capacity": 64, "grain": 8, "grains": [[0, "a", 0], [3, "a", 1]], "present_gts": [], "pad": 0, "layer": 0,
+            "gtes": 512, "compressed": True, "footer": True, "embedded_lba": True, "version": 3, "zero_flag": False, "redundant": False}
+    data = bvmdk.build(spec)[0].materialize()
+    assert data[-1024:-1020] == b"KDMV" and struct.unpack_from("<Q", data, 56)[0] == 0xFFFFFFFFFFFFFFFF
+    return data
+
+
 HV_SPEC = {"entries": [{"id": 0, "parent": None, "key": "configuration", "type": "node", "value": None, "table": 1, "fo": False},
                        {"id": 1, "parent": 0, "key": "version", "type": "int", "value": 5, "table": 1, "fo": False},
                        {"id": 2, "parent": 0, "key": "name", "type": "string", "value": "vm", "table": 2, "fo": False}],
@@ -255,6 +265,7 @@ def byte_gates():
         "hds.signature.v2": (lambda: base_hds(2), 0, 16, "<", lambda v: v in _HDS_SIGS, open_hds),
         "vmdk.kdmv.magic": (lambda: base_vmdk("kdmv"), 0, 4, "<", lambda v: v in _VMDK_MAGICS, open_sparse),
         "vmdk.cowd.magic": (lambda: base_vmdk("cowd"), 0, 4, "<", lambda v: v in _VMDK_MAGICS, open_sparse),
+        "vmdk.footer.magic": (base_vmdk_footer, len(base_vmdk_footer()) - 1024, 4, "<", lambda v: v in _VMDK_MAGICS, open_sparse),
         "vmdk.sesparse.magic": (lambda: base_vmdk("sesparse"), 0, 8, "<", lambda v: v == 0xCAFEBABE, open_sparse),
         "vmdk.sesparse.magic.vmdk": (lambda: base_vmdk("sesparse"), 0, 8, "<", lambda v: v == 0xCAFEBABE or (v & 0xFFFFFFFF) not in _VMDK_MAGICS, open_vmdk_fh),
         "vmdk.descriptor-extent.magic": (lambda: base_vmdk("kdmv"), 0, 4, "<", lambda v: v in _VMDK_MAGICS, open_vmdk_descriptor),
@@ -282,7 +293,7 @@ MAGIC_GATES = ["qcow2.magic", "vhdx.file_identifier", "vhdx.current_header", "vh
                "vhdx.metadata_table", "vdi.signature", "hds.signature.v1", "hds.signature.v2", "vmdk.kdmv.magic", "vmdk.cowd.magic",
                "vmdk.sesparse.magic", "vmdk.sesparse.magic.vmdk", "vmdk.descriptor-extent.magic", "envelope.magic.noverify", "hyperv.header.signature", "hyperv.replay_log.signature",
                "hyperv.object_table.signature", "hyperv.key_table.signature", "envelope.magic", "hyperv.nested.object_table.signature",
-               "hyperv.nested.key_table.signature"]
+               "hyperv.nested.key_table.signature", "vmdk.footer.magic"]
 VALUE_GATES = ["qcow2.version", "qcow2.cluster_bits", "qcow2.crypt_method", "qcow2.compression_type=zstd", "qcow2.compression_type>=2",
                "hyperv.header.version", "envelope.version", "envelope.aead_footer.version", "envelope.version.noverify",
                "envelope.aead_footer.version.noverify"]
@@ -453,15 +464,21 @@ def semantic(spec, out):
             # a snapshot chain of 1..3 images; the unsupported Type sits on the base, a middle or the top image
             depth = 1 + n % 3
             bad_at = (n // 3) % depth
+            nst = 1 + (n // 9) % 3  # split disks: the unsupported Type sits in one storage only
+            bad_st = (n // 27) % nst
             guids = [f"1a2b3c4d-0000-4000-8000-00000000000{i}" for i in range(depth - 1)] + [bhdd.DEFAULT_TOP]
             for g in guids:
                 with open(os.path.join(root, f"x.{g}.hds"), "wb") as f:
                     f.write(base_hds(2))
-            out.cls(f"hdd-chain-depth={depth}", "bad-image=" + ("top" if bad_at == depth - 1 else "base" if bad_at == 0 else "middle"))
+            out.cls(f"hdd-chain-depth={depth}", "bad-image=" + ("top" if bad_at == depth - 1 else "base" if bad_at == 0 else "middle"),
+                    f"storages={nst}", "bad-storage=" + ("first" if bad_st == 0 else "later"))
             def desc(t):
-                images = [{"guid": g, "type": t if i == bad_at else "Compressed", "file": f"x.{g}.hds"} for i, g in enumerate(guids)]
+                sts = []
+                for si in range(nst):
+                    images = [{"guid": g, "type": t if (i == bad_at and si == bad_st) else "Compressed", "file": f"x.{g}.hds"} for i, g in enumerate(guids)]
+                    sts.append({"start": 24 * si, "end": 24 * (si + 1), "images": images})
                 shots = [{"guid": g, "parent": guids[i - 1] if i else bhdd.NULL_GUID} for i, g in enumerate(guids)]
-                return bhdd.descriptor_xml({"disk_size": 24, "storages": [{"start": 0, "end": 24, "images": images}], "shots": shots})
+                return bhdd.descriptor_xml({"disk_size": 24 * nst, "storages": sts, "shots": shots})
             with open(os.path.join(root, "DiskDescriptor.xml"), "w") as f:
                 f.write(desc("Compressed"))
             ctl = lib(lambda: HDD(Path(root)).open())[1]
